@@ -129,7 +129,7 @@ def _body_of(e):  # noqa: PLR0911
     if _call_of(e, "_cloudpickle_key") and len(e.args) == 1 and _is_name(e.args[0], "obj"):
         return ("digest",)
     if _call_of(e, "to_hashable") and e.args and not _is_name(e.args[0], "obj"):
-        return ("recurse",)
+        return ("recurse", ast.unparse(e.args[0]))          # the expression that is converted instead of obj (pandas: obj.to_dict())
     return ("other",)
 
 
@@ -286,6 +286,8 @@ def _s(x: str) -> str:
 
 
 def _lean_body(b) -> str:
+    if b[0] == "recurse":
+        return f".recurse {_s(b[1])}"
     return f".{b[0]} {_b(b[1])}" if len(b) == 2 else f".{b[0]}"
 
 
